@@ -42,7 +42,7 @@ func checkC05(p *Program, r *Report) {
 	sort.Slice(fs, func(i, j int) bool { return fs[i].String() < fs[j].String() })
 
 	// ---- (i)+(ii) map ranges
-	r.Rule("C05.determinism.maprange", "E10", "map iteration order cannot leak: collect-then-sort with a comparator that reads the key", 2)
+	r.Rule("C05.determinism.maprange", "E10", "map iteration order cannot leak: collect-then-sort with a comparator that reads the key", 0)
 	nRange := 0
 	for _, f := range fs {
 		instrsOf(f, func(_ *ssa.BasicBlock, in ssa.Instruction) {
@@ -442,4 +442,37 @@ func comparatorReadsField(cmp *ssa.Function, field int) bool {
 	return found
 }
 
-func init() { checks["C05"] = checkC05 }
+func controlC05(fx *Program, r *Report) {
+	pkg := fx.FxPkg("mapleak")
+	if pkg == nil {
+		r.Control("C05.determinism.maprange", "fixtures/mapleak", false, "fixture package not loaded")
+		return
+	}
+	for _, tc := range []struct {
+		fn   string
+		want bool
+	}{{"Unsorted", true}, {"NoTieBreak", true}, {"FirstMatch", true}, {"Sorted", false}} {
+		f := pkg.Func(tc.fn)
+		if f == nil {
+			r.Control("C05.determinism.maprange", "mapleak."+tc.fn, false, "function not found")
+			continue
+		}
+		flagged := false
+		detail := ""
+		instrsOf(f, func(_ *ssa.BasicBlock, in ssa.Instruction) {
+			if rg, ok := in.(*ssa.Range); ok {
+				if why, _ := mapRangeDiscipline(fx, f, rg); why != "" {
+					flagged = true
+					detail = why
+				}
+			}
+		})
+		r.Control("C05.determinism.maprange", "mapleak."+tc.fn, flagged == tc.want, fmt.Sprintf("expected flagged=%v: %s", tc.want, detail))
+	}
+}
+
+func init() {
+	checks["C05"] = checkC05
+	controlFns["C05"] = controlC05
+	controlFns["C19"] = controlC05
+}
